@@ -159,47 +159,76 @@ func TestVerif_C01_sqlx_table(t *testing.T) {
 	})
 }
 
-// ---- behaviour
+// ---- behaviour: several connections, each with its own breaker
 
-type c01SQLOp struct {
+type c01SQLStep struct {
+	N int    `json:"n"` // connection index
 	E string `json:"e"` // exec queryrow queryrows prepare transact
 	O int    `json:"o"` // 0 ok 1 no rows 2 tx done 3 driver returns context.Canceled 4 caller's ctx cancelled 9 database down
 }
 
 type c01SQLCase struct {
-	Benign bool       `json:"benign"`
-	Ops    []c01SQLOp `json:"ops"`
-	Skew   int64      `json:"skew,omitempty"`
+	K     int          `json:"k"`    // connections (all on one fake database)
+	Kind  []int        `json:"kind"` // per connection: 0 benign, 1 failing, 2 mixed
+	Steps []c01SQLStep `json:"steps"`
+	Skew  int64        `json:"skew,omitempty"`
 }
 
 func c01GenSQL(rt *rapid.T) c01SQLCase {
-	c := c01SQLCase{Benign: rapid.IntRange(0, 3).Draw(rt, "benign") != 0}
+	c := c01SQLCase{K: rapid.IntRange(1, 3).Draw(rt, "k")}
 	c.Skew = rapid.Int64Range(0, 1_000_000_000).Draw(rt, "skew")
-	n := rapid.IntRange(200, 320).Draw(rt, "n")
-	entries := []string{"exec", "queryrow", "queryrows", "prepare", "transact"}
-	if c.Benign {
-		pool := []int{0, 1, 2, 3, 4}
-		if rapid.Bool().Draw(rt, "single") {
-			pool = []int{rapid.IntRange(1, 4).Draw(rt, "the")}
-		}
+	all := []string{"exec", "queryrow", "queryrows", "prepare", "transact"}
+	scripts := make([][]c01SQLStep, c.K)
+	for n := 0; n < c.K; n++ {
+		kind := rapid.SampledFrom([]int{0, 0, 1, 1, 2}).Draw(rt, "kind")
+		c.Kind = append(c.Kind, kind)
+		entries := all
 		if rapid.Bool().Draw(rt, "oneentry") { // a miscounting entry point must not be diluted by the others
-			entries = []string{rapid.SampledFrom(entries).Draw(rt, "theentry")}
+			entries = []string{rapid.SampledFrom(all).Draw(rt, "theentry")}
 		}
-		for i := 0; i < n; i++ {
-			c.Ops = append(c.Ops, c01SQLOp{rapid.SampledFrom(entries).Draw(rt, "e"), rapid.SampledFrom(pool).Draw(rt, "o")})
-		}
-		nf := rapid.IntRange(0, 5).Draw(rt, "nfail")
-		for i := 0; i < nf; i++ {
-			c.Ops[rapid.IntRange(0, n-1).Draw(rt, "pos")].O = 9
-		}
-	} else {
-		e := rapid.SampledFrom(entries).Draw(rt, "the")
-		mixed := rapid.Bool().Draw(rt, "mixed")
-		for i := 0; i < n; i++ {
-			if mixed {
-				e = rapid.SampledFrom(entries).Draw(rt, "e")
+		switch kind {
+		case 0:
+			ln := rapid.IntRange(200, 280).Draw(rt, "n")
+			pool := []int{0, 1, 2, 3, 4}
+			if rapid.Bool().Draw(rt, "single") {
+				pool = []int{rapid.IntRange(1, 4).Draw(rt, "the")}
 			}
-			c.Ops = append(c.Ops, c01SQLOp{e, 9})
+			for i := 0; i < ln; i++ {
+				scripts[n] = append(scripts[n], c01SQLStep{n, rapid.SampledFrom(entries).Draw(rt, "e"), rapid.SampledFrom(pool).Draw(rt, "o")})
+			}
+			nf := rapid.IntRange(0, 5).Draw(rt, "nfail")
+			for i := 0; i < nf; i++ {
+				scripts[n][rapid.IntRange(0, ln-1).Draw(rt, "pos")].O = 9
+			}
+		case 1:
+			ln := rapid.IntRange(200, 280).Draw(rt, "n")
+			for i := 0; i < ln; i++ {
+				scripts[n] = append(scripts[n], c01SQLStep{n, rapid.SampledFrom(entries).Draw(rt, "e"), 9})
+			}
+		default:
+			ln := rapid.IntRange(20, 200).Draw(rt, "n")
+			for i := 0; i < ln; i++ {
+				scripts[n] = append(scripts[n], c01SQLStep{n, rapid.SampledFrom(entries).Draw(rt, "e"), rapid.SampledFrom([]int{0, 1, 2, 3, 4, 9, 9, 9}).Draw(rt, "o")})
+			}
+		}
+	}
+	// interleave in generated chunks
+	pos := make([]int, c.K)
+	for {
+		var active []int
+		for n := range scripts {
+			if pos[n] < len(scripts[n]) {
+				active = append(active, n)
+			}
+		}
+		if len(active) == 0 {
+			break
+		}
+		n := rapid.SampledFrom(active).Draw(rt, "conn")
+		chunk := rapid.SampledFrom([]int{1, 1, 2, 5, 20, 100, 400}).Draw(rt, "chunk")
+		for ; chunk > 0 && pos[n] < len(scripts[n]); chunk-- {
+			c.Steps = append(c.Steps, scripts[n][pos[n]])
+			pos[n]++
 		}
 	}
 	return c
@@ -207,7 +236,9 @@ func c01GenSQL(rt *rapid.T) c01SQLCase {
 
 func c01InterpSQL(t *testing.T, c c01SQLCase) (v kit.Verdict) {
 	var fail string
-	rejected, nfail := 0, 0
+	rejected := make([]int, c.K)
+	nfail := make([]int, c.K)
+	calls := make([]int, c.K)
 	classes := map[string]bool{}
 	res := kit.Bubble(t, func() {
 		if c.Skew > 0 {
@@ -219,16 +250,22 @@ func c01InterpSQL(t *testing.T, c c01SQLCase) (v kit.Verdict) {
 			_ = db.Close()
 			kit.Wait()
 		}()
-		provided := 0
-		conn := NewConnFromDB(db).(*commonConn)
-		orig := conn.provider
-		conn.provider = func() (*sql.DB, error) {
-			provided++
-			return orig()
+		provided := make([]int, c.K)
+		conns := make([]*commonConn, c.K)
+		for n := 0; n < c.K; n++ {
+			n := n
+			conns[n] = NewConnFromDB(db).(*commonConn)
+			orig := conns[n].provider
+			conns[n].provider = func() (*sql.DB, error) {
+				provided[n]++
+				return orig()
+			}
 		}
 		cancelled, cancel := context.WithCancel(context.Background())
 		cancel()
-		for i, o := range c.Ops {
+		for i, o := range c.Steps {
+			n := o.N % c.K
+			conn := conns[n]
 			ctx := context.Background()
 			var want error
 			cfg.next, cfg.rows = nil, 1
@@ -248,9 +285,10 @@ func c01InterpSQL(t *testing.T, c c01SQLCase) (v kit.Verdict) {
 				want, ctx = context.Canceled, cancelled
 			case 9:
 				want, cfg.next = c01DBDown, c01DBDown
-				nfail++
+				nfail[n]++
 			}
-			before := provided
+			calls[n]++
+			before := provided[n]
 			var err error
 			switch o.E {
 			case "exec":
@@ -274,15 +312,15 @@ func c01InterpSQL(t *testing.T, c c01SQLCase) (v kit.Verdict) {
 				})
 			}
 			classes[o.E] = true
-			what := fmt.Sprintf("call %d %+v", i, o)
-			if provided == before {
-				rejected++
+			what := fmt.Sprintf("step %d %+v (call %d of connection %d)", i, o, calls[n], n)
+			if provided[n] == before {
+				rejected[n]++
 				if err != breaker.ErrServiceUnavailable {
 					fail = fmt.Sprintf("%s: connection provider not consulted but the result is %v", what, err)
 					return
 				}
-				if c.Benign {
-					fail = fmt.Sprintf("%s rejected by the breaker after only benign outcomes and %d (<=5) failures", what, nfail)
+				if c.Kind[n] == 0 {
+					fail = fmt.Sprintf("%s rejected by the breaker although this connection saw only benign outcomes and %d (<=5) failures; kinds of all connections: %v", what, nfail[n], c.Kind)
 					return
 				}
 				continue
@@ -292,23 +330,33 @@ func c01InterpSQL(t *testing.T, c c01SQLCase) (v kit.Verdict) {
 				return
 			}
 		}
-		if c.Benign {
-			for j := 0; j < 500; j++ {
-				if _, err := conn.brk.Allow(); err != nil {
-					fail = fmt.Sprintf("after a run of benign outcomes and %d (<=5) failures the connection's breaker rejects (probe %d)", nfail, j)
+		for n := 0; n < c.K; n++ {
+			switch c.Kind[n] {
+			case 0:
+				for j := 0; j < 500; j++ {
+					if _, err := conns[n].brk.Allow(); err != nil {
+						fail = fmt.Sprintf("connection %d: after only benign outcomes and %d (<=5) failures its breaker rejects (probe %d); kinds of all connections: %v", n, nfail[n], j, c.Kind)
+						return
+					}
+				}
+			case 1:
+				if rejected[n] == 0 {
+					fail = fmt.Sprintf("connection %d: %d consecutive database failures were all admitted: the breaker never cut off", n, calls[n])
 					return
 				}
 			}
-		} else if rejected == 0 {
-			fail = fmt.Sprintf("%d consecutive database failures were all admitted: the breaker never cut off", len(c.Ops))
 		}
 	})
-	v.NonTrivial = true
-	if c.Benign {
-		classes["benign-run"] = true
-	} else {
-		classes["failing-run"] = true
+	hasB, hasF := false, false
+	for _, kd := range c.Kind {
+		classes[[]string{"benign-conn", "failing-conn", "mixed-conn"}[kd]] = true
+		hasB = hasB || kd == 0
+		hasF = hasF || kd == 1
 	}
+	if c.K > 1 {
+		classes["several-connections"] = true
+	}
+	v.NonTrivial = hasB || hasF
 	for k := range classes {
 		v.Classes = append(v.Classes, k)
 	}
@@ -322,6 +370,6 @@ func c01InterpSQL(t *testing.T, c c01SQLCase) (v kit.Verdict) {
 }
 
 func TestVerif_C01_sqlx_run(t *testing.T) {
-	kit.Run(t, "C01", "sqlx-run", kit.Opts{Quick: 300, Thorough: 6400}, c01GenSQL,
+	kit.Run(t, "C01", "sqlx-run", kit.Opts{Quick: 200, Thorough: 4800}, c01GenSQL,
 		func(c c01SQLCase) kit.Verdict { return c01InterpSQL(t, c) })
 }
